@@ -822,8 +822,9 @@ pub fn pool_groups(prop: &'static str, proj: Proj, q: bool, max_dev: usize) -> V
     p2.extra_inputs = vec!["az9_!".into(), "zZ.9\u{10FFFF}a".into(), "aZz99.9!".into()];
     // classes at the guard-chain / search-table threshold (MAX_GUARD_SIZE ranges and one more)
     let nranges = |n: usize| -> Re {
+        // real ranges (single characters are character transitions and do not count towards a table)
         let mut v = vec![('0', '9'), ('A', 'Z'), ('a', 'b'), ('y', 'z')];
-        v.extend("dfhjlnprtv".chars().take(n.saturating_sub(4)).map(|c| (c, c)));
+        v.extend([('d', 'e'), ('g', 'h'), ('j', 'k'), ('m', 'n'), ('p', 'q'), ('s', 't'), ('v', 'w')].into_iter().take(n.saturating_sub(4)));
         Re::Set(v)
     };
     let mut thresholds: Vec<Spec> = vec![];
@@ -831,6 +832,8 @@ pub fn pool_groups(prop: &'static str, proj: Proj, q: bool, max_dev: usize) -> V
         thresholds.push(Spec::single(vec![ret(cat(nranges(n), ch('!'))), ret(plus(nranges(n))), ret(ch('z'))], "threshold"));
         thresholds.push(Spec::single(vec![Rule { re: ch('!'), ctx: Some(cat(nranges(n), ch('z'))), kind: Kind::Act(D_RETURN) }, ret(set(&[('a', 'z')])), ret(ch('!'))], "threshold"));
     }
+    // a built-in class (a search table) inside a right context that continues
+    thresholds.push(Spec::single(vec![Rule { re: ch('!'), ctx: Some(cat(builtin("alphabetic"), ch('z'))), kind: Kind::Act(D_RETURN) }, ret(set(&[('a', 'z')])), ret(ch('!'))], "threshold"));
     // the table lexers are expensive to compile: the quick tier keeps three of them
     let tables: Vec<Spec> = if q { builtin_rules_family().into_iter().enumerate().filter(|(i, _)| [0usize, 2, 3].contains(i)).map(|(_, s)| s).collect() } else { builtin_rules_family() };
     let mut tables = tables;
